@@ -350,6 +350,37 @@ m("input-peek-returned", "OWN-INPUT", ["C03", "C19"], "break", BS,
   "\tfirst := n\n\tif first > readChunkSize {", "\tif n <= 16 {\n\t\tif bs, err := b.in.Peek(int(n)); err == nil {\n\t\t\tb.in.Discard(int(n))\n\t\t\tb.pos += n\n\t\t\treturn bs, nil\n\t\t}\n\t}\n\tfirst := n\n\tif first > readChunkSize {", "slice returned by Peek", True,
   "bytes handed to the caller alias the read buffer")
 
+
+# ---- sibling / ownership rules of the second round
+m("stepin-drop-null-check", "ORD-STEPIN", ["C08"], "break", BR,
+  "\tif r.value == nil {\n\t\treturn &UsageError{\"Reader.StepIn\", \"cannot step in to a null container\"}\n\t}\n", "", "binaryReader).StepIn", True,
+  "StepIn on null.list pushes a nesting level")
+m("stepin-refactor-combined", "ORD-STEPIN", ["C08"], "refactor", BR,
+  "\tif r.value == nil {\n\t\treturn &UsageError{\"Reader.StepIn\", \"cannot step in to a null container\"}\n\t}\n\n\tr.ctx.push(containerTypeToCtx(r.valueType))",
+  "\tif v := r.value; v == nil {\n\t\treturn &UsageError{\"Reader.StepIn\", \"cannot step in to a null container\"}\n\t}\n\tc := containerTypeToCtx(r.valueType)\n\tr.ctx.push(c)", "", True,
+  "value kept in a local, ctx computed first")
+m("lobws-skip-comments-in-blob", "OWN-LOBWS", ["C02", "C08"], "break", SK,
+  "\tfor c != '}' {\n\t\tc, _, err = t.skipLobWhitespace()", "\tfor c != '}' {\n\t\tc, _, err = t.skipWhitespace()", "skipBlobHelper", True,
+  "'//' inside a skipped blob is taken for a comment")
+m("build-hand-over-storage", "OWN-BUILD", ["C09", "C11", "C18"], "break", ST,
+  "\tsymbols := append([]string{}, b.symbols...)\n", "\tsymbols := b.symbols\n", "Build", True, "the built table shares the builder's symbols slice")
+m("build-refactor-make-copy", "OWN-BUILD", ["C09", "C11", "C18"], "refactor", ST,
+  "\tsymbols := append([]string{}, b.symbols...)\n", "\tsymbols := make([]string, len(b.symbols))\n\tcopy(symbols, b.symbols)\n", "", True, "copy spelled with make+copy")
+m("importfirst-local-fast-path", "ORD-IMPORTFIRST", ["C09", "C11"], "break", ST,
+  "func (t *lst) FindByName(s string) (uint64, bool) {\n", "func (t *lst) FindByName(s string) (uint64, bool) {\n\tif id, ok := t.index[s]; ok {\n\t\treturn id, true\n\t}\n", "FindByName", True,
+  "local index consulted before the imports")
+m("sid0-writesymbol-positive", "TAB-SID0", ["C02", "C05"], "break", TU,
+  "\t} else if token.LocalSID != SymbolIDUnknown {", "\t} else if token.LocalSID > 0 {", "writeSymbol", True, "$0 cannot be written as text")
+m("sid0-refactor-nonneg", "TAB-SID0", ["C02", "C05"], "refactor", TU,
+  "\t} else if token.LocalSID != SymbolIDUnknown {", "\t} else if token.LocalSID >= 0 {", "", True, "unknown spelled as negative")
+m("tokcache-fieldname-cache", "OWN-TOKCACHE", ["C05", "C10"], "break", BR,
+  "\tbits bitstream\n\tcat  Catalog\n}", "\tbits bitstream\n\tcat  Catalog\n\n\tlastField map[uint64]SymbolToken\n}", "lastField", True,
+  "a token cache that no table change resets")
+m("refusew-finish-clear-first", "REFUSE-PURE-W", ["C12"], "break", BW,
+  "\tif w.ctx.peek() != ctxAtTopLevel {\n\t\treturn &UsageError{\"Writer.Finish\", \"not at top level\"}\n\t}\n\n\tw.clear()\n\tw.wroteLST = false\n",
+  "\tw.clear()\n\tw.wroteLST = false\n\tif w.ctx.peek() != ctxAtTopLevel {\n\t\treturn &UsageError{\"Writer.Finish\", \"not at top level\"}\n\t}\n", "binaryWriter.Finish", True,
+  "a refused Finish forgets that the fixed symbol table was written")
+
 os.makedirs(os.path.dirname(os.path.abspath(__file__)), exist_ok=True)
 with open(os.path.join(os.path.dirname(os.path.abspath(__file__)), "core.json"), "w") as f:
     json.dump(M, f, indent=1)
